@@ -450,6 +450,11 @@ fn schedule(nthreads: usize, steps: &str) -> String {
                             let rc = failing_call(*kind, &mut c_err, &mut pp);
                             format!("rc={}", rc)
                         }
+                        'n' => {
+                            // the same failing call made without an error pointer (as the bundled C hook does for most calls)
+                            let rc = failing_call(*kind, std::ptr::null_mut(), &mut pp);
+                            format!("rc={}", rc)
+                        }
                         _ => {
                             if c_err.is_null() {
                                 "nofail".to_string()
@@ -477,7 +482,7 @@ fn schedule(nthreads: usize, steps: &str) -> String {
 }
 
 /// One failing table call of the given kind (the same five as in `schedule`).
-unsafe fn failing_call(kind: usize, c_err: &mut *const dnssector::c_abi::CErr, pp: &mut ParsedPacket) -> i32 {
+unsafe fn failing_call(kind: usize, c_err: *mut *const dnssector::c_abi::CErr, pp: &mut ParsedPacket) -> i32 {
     let table = dnssector::c_abi::fn_table();
     let mut raw = [0u8; 256];
     let mut raw_len: usize = 0;
@@ -539,7 +544,7 @@ unsafe fn failing_call(kind: usize, c_err: &mut *const dnssector::c_abi::CErr, p
                 c.rc = (table.set_raw_name)(&mut *(it as *mut dnssector::c_abi::SectionIterator), c.c_err, c.name, c.len);
                 false
             }
-            let mut ctx = Ctx { name: bad.as_ptr(), len: bad.len(), c_err: c_err as *mut _, rc: 0 };
+            let mut ctx = Ctx { name: bad.as_ptr(), len: bad.len(), c_err, rc: 0 };
             (table.iter_answer)(&mut pp2, cb, &mut ctx as *mut Ctx as *mut std::ffi::c_void);
             ctx.rc
         }
@@ -691,6 +696,13 @@ fn run_op(ctx: &mut Ctx, op: &str) -> String {
         // ---- stateless -------------------------------------------------------------
         "H" => schedule(f[1].parse().unwrap(), f[2]),
         "HS" => sequential_failures(f[1].parse().unwrap()),
+        // parse, one operation through the C function table, the bytes: as one operation (for the purity pairs of C17)
+        "PF" => {
+            let r1 = run_op(ctx, &format!("P,{}", f[1]));
+            let r2 = run_op(ctx, &format!("F,{}", f[2..].join(",")));
+            let r3 = run_op(ctx, "b");
+            format!("{}|{}|{}", r1, r2, r3)
+        }
         "K" => {
             let p = unhex(f[1]);
             let off: usize = f[2].parse().unwrap();
